@@ -147,6 +147,12 @@ def handleTerminal (args : List String) : String :=
   | [f] => withBoard f terminalOf
   | _ => "bad-request"
 
+/-- `anylegal <fen_>`: `Bitboard::is_any_move_legal` on the pseudo-legal buffer (the evaluator's and the SAN writer's path) -/
+def handleAnyLegal (args : List String) : String :=
+  match args with
+  | [f] => withBoard f fun b => if isAnyMoveLegal b (genPseudo b) then "1" else "0"
+  | _ => "bad-request"
+
 def handleHash (args : List String) : String :=
   match args with
   | [f] => withBoard f fun b => s!"{hexU (Zobrist.hash b)} {hexU (Zobrist.pawnHash b)}"
